@@ -239,7 +239,7 @@ parsec_dtd_ordering_correctly( parsec_execution_stream_t *es,
             desc_flow_index = (DESC_OF(current_task, current_dep))->flow_index;
             desc_op_type = (FLOW_OF(current_desc, desc_flow_index)->op_type & PARSEC_GET_OP_TYPE);
 
-            int get_out = 0, tmp_desc_flow_index, release_parent = 0;
+            int get_out = 0, tmp_desc_flow_index, release_parent = 0, prev_desc_local_reader = 0;
             parsec_dtd_task_t *nextinline = current_desc;
 
             do {
@@ -332,7 +332,13 @@ parsec_dtd_ordering_correctly( parsec_execution_stream_t *es,
                 if(action_mask & PARSEC_ACTION_RELEASE_LOCAL_DEPS) {
                     if( parsec_dtd_task_is_remote(current_desc) && parsec_dtd_task_is_local(current_task) ) {
                         parsec_dtd_remote_task_release( current_desc );
+                    } else if( parsec_dtd_task_is_remote(current_desc) && parsec_dtd_task_is_remote(current_task) &&
+                               prev_desc_local_reader &&
+                               PARSEC_INPUT != (FLOW_OF(current_desc, tmp_desc_flow_index)->op_type & PARSEC_GET_OP_TYPE) ) {
+                        /* remote writer reached through a local reader of a remote writer (retained at insertion) */
+                        parsec_dtd_remote_task_release( current_desc );
                     }
+                    prev_desc_local_reader = parsec_dtd_task_is_local(current_desc);
                     if(release_parent) {
                         if( parsec_dtd_task_is_local(current_task) ) {
                             parsec_dtd_release_local_task( current_task );
